@@ -69,6 +69,9 @@ def _covers(dom, host):
     return h == dom[1:] or h.endswith(dom)
 
 
+CALLER_COOKIES = ("z=9", "a=1", "=2", "b")
+
+
 def j_hist(nresp, merged=False, client_cookie=False, redirect=False):
     """nresp responses, each setting 1 cookie (or 2 in merged multi-line form) for one catalogue domain; after every
     response a handshake to every catalogue host checks the Cookie header"""
@@ -77,6 +80,7 @@ def j_hist(nresp, merged=False, client_cookie=False, redirect=False):
     import websocket._handshake as HS
     reset_cookie_jar()
     ref = {}  # normalised domain -> {name: value}
+    cc = None
     for r in range(nresp):
         dom = DOMAINS[sx.choice("dom%d" % r, len(DOMAINS))]
         name = NAMES[sx.choice("name%d" % r, len(NAMES))]
@@ -102,9 +106,11 @@ def j_hist(nresp, merged=False, client_cookie=False, redirect=False):
             slot = ref.setdefault(_norm(dom), {})
             for n_, v_ in cookies:
                 slot[n_] = v_
+        # the caller's cookie: unrelated to the jar / the same pair a jar entry may hold / text that occurs inside a jar entry
+        if client_cookie and (r == 0 or client_cookie == "each"):
+            cc = CALLER_COOKIES[sx.choice("cc%d" % r, len(CALLER_COOKIES))]
         # probe every host
         for host in HOSTS:
-            cc = "z=9" if client_cookie else None
             head = _roundtrip(host, None, cc)
             got = [l for l in head.split("\r\n") if l.lower().startswith("cookie:")]
             parts = []
@@ -221,7 +227,7 @@ def obligations(tier):
     get = [dict(hl=h, dl=d) for h in range(0, (12 if thorough else 8)) for d in range(0, (9 if thorough else 5))]
     get += [dict(hl=h, dl=d, two=True) for h in (1, 3) for d in (1, 2)]
     hist = [dict(nresp=n) for n in ((1, 2, 3) if thorough else (1, 2))] + [dict(nresp=1, merged=True), dict(nresp=2, merged=True),
-                                                                            dict(nresp=1, client_cookie=True), dict(nresp=2, client_cookie=True),
+                                                                            dict(nresp=1, client_cookie=True), dict(nresp=2, client_cookie="each" if thorough else True),
                                                                             dict(nresp=1, redirect=True), dict(nresp=2, redirect=True)]
     return [
         Obligation("J-get", j_get, get, bounds="host of 0..%d and domain of 0..%d symbolic ASCII characters; one or two stored domains" % (11 if thorough else 7, 8 if thorough else 4),
@@ -229,8 +235,8 @@ def obligations(tier):
         Obligation("J-hostopt", j_hostopt, [dict(target_i=t, hostopt_i=h) for t in range(4) for h in range(3)],
                    bounds="4 targets x 3 values of the host= option with two cookie domains in the jar", must_cover=["hostopt"], step_budget=100000,
                    kernel=["_handshake._get_handshake_headers"]),
-        Obligation("J-hist", j_hist, hist, bounds="histories of <=%d responses over names {a,b} x values {1,2} x domains %s (+ merged two-line form, + caller cookie, + cookie set by a 302 redirect response of the handshake), "
-                   "each followed by handshakes to %s" % (3 if thorough else 2, DOMAINS, HOSTS), must_cover=["hist", "stored"], budget_s=2400, step_budget=400000,
+        Obligation("J-hist", j_hist, hist, bounds="histories of <=%d responses over names {a,b} x values {1,2} x domains %s (+ merged two-line form, + caller cookie from %s — unrelated / equal to / contained in a stored one, + cookie set by a 302 redirect response of the handshake), "
+                   "each followed by handshakes to %s" % (3 if thorough else 2, DOMAINS, CALLER_COOKIES, HOSTS), must_cover=["hist", "stored"], budget_s=2400, step_budget=400000,
                    kernel=["SimpleCookieJar.add", "SimpleCookieJar.get", "_handshake.handshake_response", "_get_handshake_headers", "_http.read_headers (Set-Cookie merge)"]),
         Obligation("J-threads", j_threads, [dict(pre=True)], required=False,
                    bounds="two threads adding a cookie for the same domain (spelled example.com / .EXAMPLE.com) to a jar that already holds one for it; "
